@@ -586,6 +586,95 @@ def m_iter_min(it, st, fr, t, args, ga):
     return _opt_ref_num(it, st, _cont(it, st, args[0]), 'min')
 
 
+def m_iter_reduce(it, st, fr, t, args, ga):
+    """Iterator::reduce(f) over a sequence when f is a *selection*: evaluated on two generic elements (older, newer) it returns
+    newer (-> last), older (-> first), max(older, newer) or min(older, newer).  The result is then Some(last/first/max/min of the
+    sequence), None for an empty sequence.  Anything else fails closed."""
+    c = _cont(it, st, args[0])
+    clo = args[1]
+    if not isinstance(clo, I.ClosureV):
+        raise I.InterpError('reduce with non-closure %r' % (clo,))
+    ety = c.elem_ty or {'k': 'uint', 'n': 'u8'}
+    if ety.get('k') not in ('int', 'uint'):
+        raise I.InterpError('reduce over non-integer elements')
+    lo, hi = I.INT_RANGES[ety['n']]
+    probe = st.fork()
+    x = probe.ctx.sym_range(probe.fresh_name('reduce.older'), lo, hi, integer=True)
+    y = probe.ctx.sym_range(probe.fresh_name('reduce.newer'), lo, hi, integer=True)
+    by_value = bool(c.extra.get('by_value')) if c.extra else False
+    ax = I.Num(x, ety['n']) if by_value else I.RefV(probe.new_cell(I.Num(x, ety['n'])))
+    ay = I.Num(y, ety['n']) if by_value else I.RefV(probe.new_cell(I.Num(y, ety['n'])))
+    r = it.call_closure(probe, clo, [ax, ay])
+    if isinstance(r, I.RefV):
+        r = it.deref(probe, r)
+    if not isinstance(r, I.Num):
+        raise I.InterpError('reduce closure returns %r' % (r,))
+    kind = None
+    if r.term == y:
+        kind = 'last'
+    elif r.term == x:
+        kind = 'first'
+    elif r.term == t_max(x, y, probe.ctx):
+        kind = 'max'
+    elif r.term == t_min(x, y, probe.ctx):
+        kind = 'min'
+    if kind is None:
+        raise I.InterpError('reduce closure is not a selection of its arguments: %r' % (r.term,))
+
+    def some_(it2, s2, f2):
+        if kind == 'first':
+            tm = elem_term(c.term, ZERO, c.len, s2.ctx, ety)
+        else:
+            tm = select_term(kind, c.term, c.len, s2.ctx, ety)
+        v = I.Num(tm, ety['n'])
+        return some(v if by_value else I.RefV(s2.new_cell(v)))
+
+    def none_(it2, s2, f2):
+        return none()
+    return ('fork', [(cmp_term('Gt', c.len, 0), some_), (cmp_term('Eq', c.len, 0), none_)])
+
+
+def m_slice_get(it, st, fr, t, args, ga):
+    """<[T]>::get(i): Some(&elem) when i < len, None otherwise (constant tables and abstract sequences)"""
+    tgt = it.deref(st, args[0]) if isinstance(args[0], I.RefV) else args[0]
+    idx = args[1]
+    if not isinstance(idx, I.Num):
+        raise I.InterpError('slice::get with %r' % (idx,))
+    if isinstance(tgt, I.ArrV) and getattr(tgt, 'table', None):
+        tb = it.facts.tables.get(tgt.table)
+        if tb is None:
+            raise I.InterpError('slice::get on unknown table %s' % tgt.table)
+        n = len(tb)
+
+        def some_t(it2, s2, f2):
+            from .terms import t_tbl
+            return some(I.RefV(s2.new_cell(I.Num(t_tbl(it2.facts.real('table', tgt.table), idx.term, s2.ctx), 'f32'))))
+        return ('fork', [(cmp_term('Lt', idx.term, n), some_t), (cmp_term('Ge', idx.term, n), lambda it2, s2, f2: none())])
+    c = _cont(it, st, args[0])
+
+    def some_c(it2, s2, f2):
+        return some(I.RefV(s2.new_cell(_elem_value(it2, s2, c, idx.term))))
+    return ('fork', [(cmp_term('Lt', idx.term, c.len), some_c), (cmp_term('Ge', idx.term, c.len), lambda it2, s2, f2: none())])
+
+
+def m_option_copied(it, st, fr, t, args, ga):
+    e = args[0]
+    v = _known_variant(e)
+    if v == 0:
+        return none()
+    x = e.payload[1][0]
+    return some(it.deref(st, x) if isinstance(x, I.RefV) else x)
+
+
+def m_slice_from_ref(it, st, fr, t, args, ga):
+    """core::slice::from_ref(&x): the one-element slice [x]"""
+    x = it.deref(st, args[0]) if isinstance(args[0], I.RefV) else args[0]
+    ety = None
+    if isinstance(x, I.Num):
+        ety = {'k': 'uint' if x.ty.startswith('u') else ('float' if x.ty.startswith('f') else 'int'), 'n': x.ty}
+    return I.ContV('slice', ('lit', (it._hashable(x),)), length=ONE, elem_ty=ety, extra={'items': [x]})
+
+
 def _elem_value(it, st, c, idx_poly):
     """abstract element `idx` of a slice container"""
     term = c.term
@@ -1201,6 +1290,12 @@ def registry():
         'core::slice::<impl [T]>::iter': m_slice_iter,
         'core::slice::<impl [T]>::last': m_slice_last,
         'core::iter::Iterator::max': m_iter_max,
+        'core::iter::Iterator::reduce': m_iter_reduce,
+        'core::slice::<impl [T]>::get': m_slice_get,
+        'core::option::Option::<&T>::copied': m_option_copied,
+        'core::option::Option::<&T>::cloned': m_option_copied,
+        'core::slice::from_ref': m_slice_from_ref,
+        'core::slice::raw::from_ref': m_slice_from_ref,
         'core::iter::Iterator::min': m_iter_min,
         "<core::slice::Iter<'a, T> as core::iter::Iterator>::for_each": m_for_each,
         'core::iter::Iterator::for_each': m_for_each,
